@@ -147,36 +147,48 @@ func ruleSFlag(c *Ctx) {
 	// ---- W-unlock
 	if fn := c.P.Func("bscript", "", "NewP2PKHUnlockingScript"); fn != nil {
 		env := newTermEnv()
-		st := storeStrings(fn, env)
 		cs := callsOf(fn, env)
-		sigBuf := ""
-		for _, ci := range cs {
-			if ci.name == "append" && strings.Contains(ci.args[0], "append") || ci.name == "append" && strings.HasPrefix(ci.args[0], "call#") {
-				sigBuf = "call#" // second append
-			}
-		}
-		_ = sigBuf
-		// the two-element literal: [0] = append(append(empty, sig...), byte(flag)), [1] = pubKey
-		var lit0, lit1, flagByte string
-		for _, s := range st {
-			switch {
-			case strings.Contains(s, "[0] := call#"):
-				lit0 = s
-			case strings.HasSuffix(s, "[1] := p0"):
-				lit1 = s
-			case strings.HasSuffix(s, "[0] := p2") || strings.HasSuffix(s, "[0] := uint8(p2)"):
-				flagByte = s
-			}
-		}
 		push, np := findCall(cs, "AppendPushDataArray")
-		if np != 1 || (lit0 == "" && lit1 == "" && flagByte == "") {
-			c.Undecided("W-unlock", "NewP2PKHUnlockingScript", fn.Pos(), "construction idiom not recognised (expected a two-element literal handed to AppendPushDataArray); the layout cannot be read off")
+		// the elements handed to AppendPushDataArray: a literal [][]byte{e0, e1}
+		var elems []ssa.Value
+		if np == 1 && len(push.call.Call.Args) == 2 {
+			if sl, ok := push.call.Call.Args[1].(*ssa.Slice); ok {
+				if al, ok := sl.X.(*ssa.Alloc); ok && al.Referrers() != nil {
+					byIdx := map[int64]ssa.Value{}
+					for _, r := range *al.Referrers() {
+						if ia, ok := r.(*ssa.IndexAddr); ok && ia.Referrers() != nil {
+							if k, ok := constInt(ia.Index); ok {
+								for _, rr := range *ia.Referrers() {
+									if st, ok := rr.(*ssa.Store); ok && st.Addr == ssa.Value(ia) {
+										byIdx[k.Int64()] = st.Val
+									}
+								}
+							}
+						}
+					}
+					for i := int64(0); i < int64(len(byIdx)); i++ {
+						elems = append(elems, byIdx[i])
+					}
+				}
+			}
+		}
+		if np != 1 || len(elems) == 0 {
+			c.Undecided("W-unlock", "NewP2PKHUnlockingScript", fn.Pos(), "construction idiom not recognised (expected a literal [][]byte handed to one AppendPushDataArray call); the layout cannot be read off")
 			return
 		}
-		okSig := lit0 != "" && strings.Contains(lit0, ", p1)") && flagByte != "" && strings.Count(lit0, "call#") == 2
+		w := newWEval(c.P, fn)
+		okN := len(elems) == 2
+		var l0 *Lay
+		okSig, why := false, ""
+		okKey := false
+		if okN {
+			l0 = w.eval(elems[0])
+			okSig, why, _ = layEqual(l0, seqOf(raw("p1"), le(1, "p2")), nil)
+			okKey = elems[1] == ssa.Value(fn.Params[0])
+		}
 		okPush := strings.HasPrefix(push.args[0], "alloc#")
-		c.Check(okSig && lit1 != "" && okPush, "W-unlock", "NewP2PKHUnlockingScript", fn.Pos(), "script = push(sig . byte(flag)) push(pubKey) on a new script",
-			fmt.Sprintf("the unlocking script is no longer push(sig . flag byte) push(pubkey): first element %q, flag byte %q, second element %q", lit0, flagByte, lit1))
+		c.Check(okN && okSig && okKey && okPush, "W-unlock", "NewP2PKHUnlockingScript", fn.Pos(), "script = push(sig . byte(flag)) push(pubKey) on a new script",
+			fmt.Sprintf("the unlocking script is no longer push(sig . flag byte) push(pubkey): %d elements, first element %v (%s), second element is the public key: %v", len(elems), l0, why, okKey))
 		// the returned script is the one pushed to
 		okRet := false
 		for _, b := range fn.Blocks {
